@@ -255,7 +255,8 @@ def decoder_contract():
     truncation and on the zero-fill of real saved files (three representative states)."""
     import io
     import sys
-    sys.path.insert(0, "/repo")
+    import os as _os
+    sys.path.insert(0, _os.environ.get("VERIF_REPO", "/repo"))
     from mysensors.persistence import MySensorsJSONDecoder, MySensorsJSONEncoder
     from mysensors.sensor import Sensor
     states = []
